@@ -22,6 +22,9 @@ def na(pid, reason):
 exec(open(os.path.join(VERIF, 'engine', 'claims.py')).read())
 
 def main():
+    for k in list(NA):
+        if k in CLAIMS:
+            del NA[k]
     units = vf.load_units()
     checks = []
     for pid in sorted(CLAIMS):
